@@ -410,21 +410,111 @@ pub fn rk_exact_encodings(v: f64) -> Vec<(u32, &'static str)> {
         let i = v as i32;
         out.push((((i << 2) as u32) | 2, "int"));
     }
-    // integer x100: the stored integer is v*100 exactly
-    let h = v * 100.0;
-    if !neg_zero && h.fract() == 0.0 && h >= -(1 << 29) as f64 && h <= ((1 << 29) - 1) as f64 && (h / 100.0) == v {
-        // the decoder computes (h as integer)/100 in f64 (or integer division when divisible)
-        let i = h as i32;
-        out.push((((i << 2) as u32) | 3, "int100"));
+    // integer x100: an integer i with i / 100.0 == v (what the decoder computes)
+    let i = (v * 100.0).round();
+    if !neg_zero && i >= -(1 << 29) as f64 && i <= ((1 << 29) - 1) as f64 && i / 100.0 == v {
+        out.push(((((i as i32) << 2) as u32) | 3, "int100"));
     }
-    // float: low 34 bits zero
+    // double: low 34 bits zero
     let bits = v.to_bits();
     if bits & 0x3_FFFF_FFFF == 0 {
         out.push(((bits >> 32) as u32, "flt"));
     }
-    let hb = h.to_bits();
-    if hb & 0x3_FFFF_FFFF == 0 && h.is_finite() && h / 100.0 == v && !(h == 0.0 && neg_zero != h.is_sign_negative()) {
-        out.push((((hb >> 32) as u32) | 1, "flt100"));
+    // double x100: a double h with low 34 bits zero and h / 100.0 == v
+    for h in [v * 100.0, (v * 100.0).round()] {
+        let hb = h.to_bits();
+        if hb & 0x3_FFFF_FFFF == 0 && h.is_finite() && h / 100.0 == v && (h / 100.0).is_sign_negative() == v.is_sign_negative() {
+            out.push((((hb >> 32) as u32) | 1, "flt100"));
+            break;
+        }
     }
     out
+}
+
+// ---------------------------------------------------------------- SST serialiser (C12)
+/// an XLUnicodeRichExtendedString to be written: code units, number of formatting runs, size of
+/// the ExtRst block, storage of the first segment
+#[derive(Clone, Debug)]
+pub struct RichStr {
+    pub units: Vec<u16>,
+    pub crun: usize,
+    pub cb: usize,
+    pub hi0: bool,
+}
+
+/// where a new CONTINUE record starts: `s` = 0-based string index, `at` = units (Rgb) or bytes
+/// (Run / Ext) of that part already written
+#[derive(Clone, Debug, PartialEq)]
+pub enum Cut {
+    /// before the header of string s
+    Between { s: usize },
+    /// inside rgb, the new fragment starts with a flag byte selecting `hi`
+    Rgb { s: usize, at: usize, hi: bool },
+    Run { s: usize, at: usize },
+    Ext { s: usize, at: usize },
+}
+
+/// Serialise the table into SST + CONTINUE bodies (frags[0] starts with cstTotal, cstUnique).
+/// `cuts` are honoured where they apply; further cuts are inserted (same storage) whenever the
+/// next item would not fit into `max` bytes.  8-bit storage is used for a segment only as long as
+/// the units are <= 0xFF: the caller chooses `hi` legally, an illegal choice panics.
+pub fn sst_frags(strings: &[RichStr], cuts: &[Cut], max: usize) -> Vec<Vec<u8>> {
+    let mut frags: Vec<Vec<u8>> = Vec::new();
+    let mut cur: Vec<u8> = Vec::new();
+    cur.extend_from_slice(&(strings.len() as u32).to_le_bytes());
+    cur.extend_from_slice(&(strings.len() as u32).to_le_bytes());
+    let has = |c: &Cut| cuts.iter().any(|x| x == c);
+    let rgb_cut = |s: usize, at: usize| {
+        cuts.iter().find_map(|x| match x {
+            Cut::Rgb { s: s2, at: a2, hi } if *s2 == s && *a2 == at => Some(*hi),
+            _ => None,
+        })
+    };
+    for (s, st) in strings.iter().enumerate() {
+        let hdr_len = 3 + if st.crun > 0 { 2 } else { 0 } + if st.cb > 0 { 4 } else { 0 };
+        // the header and the first character stay together (a cut between them is doubtful)
+        let first = if st.units.is_empty() { 0 } else if st.hi0 { 2 } else { 1 };
+        if has(&Cut::Between { s }) || cur.len() + hdr_len + first > max {
+            frags.push(std::mem::take(&mut cur));
+        }
+        let mut mode = st.hi0;
+        cur.extend_from_slice(&(st.units.len() as u16).to_le_bytes());
+        cur.push(mode as u8 | if st.cb > 0 { 4 } else { 0 } | if st.crun > 0 { 8 } else { 0 });
+        if st.crun > 0 {
+            cur.extend_from_slice(&(st.crun as u16).to_le_bytes());
+        }
+        if st.cb > 0 {
+            cur.extend_from_slice(&(st.cb as u32).to_le_bytes());
+        }
+        for (k, u) in st.units.iter().enumerate() {
+            if let Some(hi) = rgb_cut(s, k) {
+                frags.push(std::mem::take(&mut cur));
+                mode = hi;
+                cur.push(mode as u8);
+            } else if cur.len() + if mode { 2 } else { 1 } > max {
+                frags.push(std::mem::take(&mut cur));
+                cur.push(mode as u8);
+            }
+            if mode {
+                cur.extend_from_slice(&u.to_le_bytes());
+            } else {
+                assert!(*u <= 0xFF, "8-bit storage of unit {:#x}", u);
+                cur.push(*u as u8);
+            }
+        }
+        for k in 0..4 * st.crun {
+            if has(&Cut::Run { s, at: k }) || cur.len() + 1 > max {
+                frags.push(std::mem::take(&mut cur));
+            }
+            cur.push(200u8.wrapping_add(k as u8));
+        }
+        for k in 0..st.cb {
+            if has(&Cut::Ext { s, at: k }) || cur.len() + 1 > max {
+                frags.push(std::mem::take(&mut cur));
+            }
+            cur.push(200u8.wrapping_add(k as u8));
+        }
+    }
+    frags.push(cur);
+    frags
 }
